@@ -162,8 +162,9 @@ def read_group_lookahead():
     try:
         text = open(os.path.join(common.REPO, "src", "scenic", "syntax", "scenic.gram")).read()
         m = re.search(r"^scenic_temporal_group:.*&\(([^)]*(?:'\)')?[^)]*)\)\s*\{", text, flags=re.M)
-        toks = re.findall(r"'([^']+)'|(NEWLINE)", m.group(1))
-        names = {a or b for a, b in toks}
+        # hard keywords are written '...' and soft keywords "..." in the grammar
+        toks = re.findall(r"'([^']+)'|\"([^\"]+)\"|(NEWLINE)", m.group(1))
+        names = {a or b or c_ for a, b, c_ in toks}
     except Exception:
         return None
     out = {t for t in names if t in ("until", "or", "and", "implies", ")")}
